@@ -18,7 +18,11 @@ def brief(ev, maxlen=24):
     """A printable abbreviation of an event (byte arrays -> hex prefix + length)."""
     out = {}
     for k, v in ev.items():
-        if isinstance(v, list) and v and all(isinstance(x, int) for x in v):
+        if isinstance(v, list) and v and all(isinstance(x, int) for x in v) and not all(0 <= x < 256 for x in v):
+            out[k] = "%s..(%d ints)" % (v[:4], len(v)) if len(v) > 8 else v
+        elif isinstance(v, list) and len(v) > 8 and not all(isinstance(x, int) for x in v):
+            out[k] = "[%d items]" % len(v)
+        elif isinstance(v, list) and v and all(isinstance(x, int) for x in v):
             out[k] = "%s..(%d bytes)" % (bytes(v[:8]).hex(), len(v)) if len(v) > 8 else bytes(v).hex()
         elif isinstance(v, str) and len(v) > maxlen * 2:
             out[k] = v[:16] + "..(%d chars)" % len(v)
@@ -297,3 +301,75 @@ def mc_variants(chk, base, variants, tier="quick", **kw):
         if tier == "thorough" and os.path.exists(t):
             cfg = t
         mc_leg(chk, base, tier=tier, cfg=cfg, **kw)
+
+
+def apalache_leg(chk, what="AP_Kernels"):
+    """Symbolic one-step checks of the 64-bit kernel contracts over their whole input domains
+    (Apalache/Z3), plus one deliberately wrong contract that must be refuted."""
+    import subprocess
+    import time
+    queries = [("AP_Mont.tla", None, "MontContract", True), ("AP_Mont.tla", None, "MontTooTight", False),
+               ("AP_Kernels.tla", "NextPR64", "PR64Contract", True), ("AP_Kernels.tla", "NextPR32", "PR32Contract", True),
+               ("AP_Kernels.tla", "NextDec", "DecContract", True)]
+    ok = 0
+    for mod, nxt, inv, holds in queries:
+        out = os.path.join(chk.workdir, "apa_" + inv)
+        cmd = ["apalache-mc", "check", "--out-dir=" + out, "--inv=" + inv, "--length=1"] + (["--next=" + nxt] if nxt else []) + [mod]
+        t0 = time.time()
+        try:
+            p = subprocess.run(cmd, cwd=MC_DIR, stdout=subprocess.PIPE, stderr=subprocess.STDOUT, text=True, timeout=900)
+        except subprocess.TimeoutExpired:
+            raise vlib.ToolError("apalache timed out on " + inv)
+        noerr = "The outcome is: NoError" in p.stdout
+        if holds != noerr:
+            raise vlib.ToolError("apalache: contract %s %s\n%s" % (inv, "not proved" if holds else "unexpectedly holds", p.stdout[-1500:]))
+        ok += 1
+        chk.leg("apalache:" + inv, outcome="proved over the whole input range" if holds else "refuted (non-vacuity)", wall_s=round(time.time() - t0, 1))
+        import shutil
+        shutil.rmtree(out, ignore_errors=True)
+    chk.cov["obligations"] = len(queries)
+    chk.cov["discharged"] = ok
+    chk.cov["checker_cmd"] = "apalache-mc check --inv=<Contract> --length=1 [--next=<Next>] spec/mc/AP_*.tla"
+    chk.cov["trusted_base"] = ["Apalache 0.58 / Z3", "the TLA+ transcription of the kernels (tied to the code by the native sweeps against the same contracts)"]
+
+
+# ---------------------------------------------------------------- generic judged traces (TraceRing, TraceCodec)
+def validate_judged(chk, module, jobs, nproc=8, timeout=2400, chunk=0):
+    """jobs: list of (setno, trace path).  Each trace is validated by `module` (which prints
+    MISMATCH / MAGNITUDE lines and a final TRACE_DONE) under the constants of setno, optionally
+    split into chunks of `chunk` events.  Returns (mismatches, magnitudes): lists of
+    dict(set, index, ev, info, event)."""
+    import re
+    tl, meta = [], []
+    for setno, path in jobs:
+        parts = [path]
+        n = sum(1 for ln in open(path) if ln.strip())
+        if n == 0:
+            continue
+        if chunk and n > chunk:
+            parts = vlib.split_ndjson(path, (n + chunk - 1) // chunk, os.path.join(chk.workdir, "chunks"), "%s_s%d" % (os.path.basename(path)[:-7], setno))
+        cfg = os.path.join(chk.workdir, "%s_%d.cfg" % (os.path.basename(module)[:-4], setno))
+        vlib.write_cfg(cfg, vlib.cfg_constants(setno), "SPECIFICATION Spec\nVIEW View\nCHECK_DEADLOCK FALSE")
+        for p in parts:
+            tl.append(dict(module=module, cfg=cfg, workdir=os.path.join(chk.workdir, "tj%03d" % len(tl)), env={"TRACE": p}, workers=1, timeout=timeout, xmx="3g"))
+            meta.append((setno, p))
+    res = vlib.tlc_many(tl, maxproc=nproc)
+    mism, mags, judged = [], [], 0
+    for (setno, p), r in zip(meta, res):
+        evs = [json.loads(x) for x in open(p) if x.strip()]
+        done = [ln for ln in r["prints"] if ln.startswith('<<"TRACE_DONE", %d,' % len(evs))]
+        if r["rc"] != 0 or not done:
+            raise vlib.ToolError("%s did not finish %s (rc=%s):\n%s" % (os.path.basename(module), p, r["rc"], r["out"][-3000:]))
+        m = re.search(r'"judged", (\d+)', done[0])
+        judged += int(m.group(1)) if m else 0
+        chk.add_tlc(r, traces=1)
+        for ln in r["prints"]:
+            mm = re.match(r'^<<"(MISMATCH|MAGNITUDE)", (\d+), "?([^",]*)"?, (.*)>>$', ln)
+            if mm:
+                idx = int(mm.group(2))
+                d = dict(set=setno, index=idx, ev=mm.group(3), info=mm.group(4), event=evs[idx - 1])
+                (mism if mm.group(1) == "MISMATCH" else mags).append(d)
+        if evs:
+            chk.sample(dict(set=setno, event=brief(evs[min(3, len(evs) - 1)])))
+    chk.add("events_judged_by_spec", judged)
+    return mism, mags
